@@ -230,6 +230,25 @@ func c16(args []string) error {
 					seqs[k] = flank(10) // may hold no ORF at all
 				}
 			}
+			if r.Intn(3) == 0 && len(seqs) > 0 {
+				// two ORFs in one sequence: the second is exactly one codon longer and its stop codon ends the
+				// sequence; one time in two the other sequences are short, so that it is the longest of the set
+				cod := []string{"AAA", "CCC", "GGG", "GCA", "CTG", "TTC"}
+				nc := 3 + r.Intn(5)
+				orf := func(n int) string {
+					o := "ATG"
+					for t := 0; t < n; t++ {
+						o += cod[r.Intn(len(cod))]
+					}
+					return o + []string{"TAA", "TAG", "TGA"}[r.Intn(3)]
+				}
+				seqs[0] = strings.Repeat("C", r.Intn(3)) + orf(nc) + strings.Repeat("C", 1+r.Intn(2)) + orf(nc+1)
+				if r.Intn(2) == 0 {
+					for k := 1; k < len(seqs); k++ {
+						seqs[k] = flank(4 + r.Intn(4))
+					}
+				}
+			}
 			sb := mkSeqBag(align.NUCLEOTIDS, names, seqs)
 			o, e := sb.LongestORF(reverse)
 			_, after := alignContent(sb)
